@@ -2,7 +2,7 @@
    Only statements, `exact`, Print Assumptions and non-vacuity Examples live here.
    All definitions are those generated from /repo/src/picosvg/svg_transform.py. *)
 From Coq Require Import ZArith Reals Lra List Bool String.
-From Pico Require Import Num PyStr Lex G_geom G_transform TransformParse E1_affine E1_viewport E1_tfparse.
+From Pico Require Import Num PyStr Lex G_geom G_transform TransformParse E1_affine E1_viewport E1_tfparse E1_scale.
 Import ListNotations.
 Local Open Scope R_scope.
 
@@ -123,6 +123,16 @@ Theorem C11_decompose_translation_exact (a b c d e f : R) :
   let x' := (e - c * y') / a in
   matmul (mkA a b c d 0 0) (mkA 1 0 0 1 x' y') = mkA a b c d e f.
 Proof. exact (decompose_translation_exact a b c d e f). Qed.
+(* decompose_scale: the scale part is the pair of column lengths; whenever it is invertible the parts recompose exactly *)
+Theorem C11_decompose_scale (MO : MathOps ROps) (A S Rm : Aff) :
+  Affine2D_decompose_scale ROps MO A = Ok (S, Rm) ->
+  S = scale_part MO A /\ Rm = compose_ltr [Affine2D_inverse ROps S; A] /\
+  Affine2D_almost_equals ROps A (compose_ltr [S; Rm]) (1 * Rpow10 (-4)) = true.
+Proof. exact (decompose_scale_parts MO A S Rm). Qed.
+Theorem C11_decompose_scale_recomposes (MO : MathOps ROps) (A S Rm : Aff) :
+  Affine2D_decompose_scale ROps MO A = Ok (S, Rm) -> Affine2D_is_degenerate ROps S = false -> compose_ltr [S; Rm] = A.
+Proof. exact (decompose_scale_recomposes MO A S Rm). Qed.
+Print Assumptions C11_decompose_scale_recomposes.
 Print Assumptions C11_decompose_translation.
 
 (* non-vacuity: a concrete non-degenerate, non-identity matrix *)
